@@ -33,7 +33,9 @@ def main():
             democmd = "go test -vet=off -count=1 -run '%s' %s" % (run, pkg)
             rc, o = sh(democmd, WT, 900)
             res["demo_clean_pass"] = (rc == 0); res["demo_clean_tail"] = o[-400:]
-            rc, o = sh("git apply " + os.path.join(d, "patch.diff"), WT)
+            pf = os.path.join(d, "patch_ported.diff") if os.path.exists(os.path.join(d, "patch_ported.diff")) else os.path.join(d, "patch.diff")
+            res["patch_file"] = os.path.basename(pf)
+            rc, o = sh("git apply " + pf, WT)
             res["patch_applies"] = (rc == 0)
             if rc != 0:
                 res["apply_err"] = o[-500:]
